@@ -120,6 +120,7 @@ const basePrelude = `(declare-sort Str 0)
 (assert (forall ((c Str)) (! (not (errIs err_nil c)) :pattern ((errIs err_nil c)))))
 (assert (forall ((s Str)) (! (>= (str_len s) 0) :pattern ((str_len s)))))
 (assert (= (str_len str_empty) 0))
+(assert (forall ((s Str)) (! (=> (= (str_len s) 0) (= s str_empty)) :pattern ((str_len s)))))
 (assert (forall ((i Int)) (! (> (str_len (int2str i)) 0) :pattern ((int2str i)))))
 (assert (forall ((i Int) (j Int)) (! (=> (= (int2str i) (int2str j)) (= i j)) :pattern ((int2str i) (int2str j)))))
 (define-fun imin ((a Int) (b Int)) Int (ite (<= a b) a b))
